@@ -34,6 +34,125 @@ def _literal(node):
     return ast.literal_eval(node) if isinstance(node, ast.Constant) else None
 
 
+def _names(node):
+    return {n.id for n in ast.walk(node) if isinstance(n, ast.Name)}
+
+
+def _fn_params(fnode):
+    a = fnode.args
+    ps = [x.arg for x in a.posonlyargs + a.args + a.kwonlyargs]
+    if a.vararg:
+        ps.append(a.vararg.arg)
+    if a.kwarg:
+        ps.append(a.kwarg.arg)
+    return [x for x in ps if x != "self"]
+
+
+def _body_uses(fnode):
+    """Parameters (other than self) that occur anywhere in the body: a parameter that does not occur cannot influence the value."""
+    used = set()
+    for st in fnode.body:
+        used |= _names(st)
+    return [x for x in _fn_params(fnode) if x in used]
+
+
+def _slice_deps(fnode, call, value_nodes):
+    """Backward slice (syntactic, flow-insensitive over-approximation) of the expressions `value_nodes` inside `fnode`:
+    names in the expressions, closed under `local := rhs` (every assignment / for / with / comprehension target of the
+    function) and under the tests of every `if` / `while` / `for` enclosing the call.  -> (parameters reached, locals reached)"""
+    assigns = {}
+
+    def tgt_names(t):
+        return {n.id for n in ast.walk(t) if isinstance(n, ast.Name)}
+    for n in ast.walk(fnode):
+        if isinstance(n, ast.Assign):
+            for t in n.targets:
+                for nm in tgt_names(t):
+                    assigns.setdefault(nm, set()).update(_names(n.value))
+        elif isinstance(n, (ast.AugAssign, ast.AnnAssign)) and n.value is not None:
+            for nm in tgt_names(n.target):
+                assigns.setdefault(nm, set()).update(_names(n.value))
+        elif isinstance(n, (ast.For, ast.comprehension)):
+            for nm in tgt_names(n.target):
+                assigns.setdefault(nm, set()).update(_names(n.iter))
+        elif isinstance(n, ast.With):
+            for it in n.items:
+                if it.optional_vars is not None:
+                    for nm in tgt_names(it.optional_vars):
+                        assigns.setdefault(nm, set()).update(_names(it.context_expr))
+    ctrl = set()
+
+    def walk(node, tests):
+        if node is call:
+            for t in tests:
+                ctrl.update(_names(t))
+            return True
+        for ch in ast.iter_child_nodes(node):
+            extra = []
+            if isinstance(node, (ast.If, ast.While)) and ch is not node.test:
+                extra = [node.test]
+            if isinstance(node, ast.For) and ch is not node.iter:
+                extra = [node.iter]
+            if walk(ch, tests + extra):
+                return True
+        return False
+    walk(fnode, [])
+    reach = set(ctrl)
+    for v in value_nodes:
+        reach |= _names(v)
+    work = list(reach)
+    while work:
+        x = work.pop()
+        for y in assigns.get(x, ()):
+            if y not in reach:
+                reach.add(y)
+                work.append(y)
+    params = _fn_params(fnode)
+    return [x for x in params if x in reach], reach
+
+
+def extract_memoize():
+    """The key expressions of utils/memoize.py itself: every subscript / pop / membership test on `_memoize_cache`, and how
+    `kwargs_pkl` is built -> [(function, role, expression text)]."""
+    path = os.path.join(REPO, "linear_operator", "utils", "memoize.py")
+    tree = ast.parse(open(path).read())
+    rows = []
+
+    def is_cache(n):
+        return isinstance(n, ast.Attribute) and n.attr == "_memoize_cache"
+
+    def visit(node, fn):
+        for ch in ast.iter_child_nodes(node):
+            f2 = ch.name if isinstance(ch, (ast.FunctionDef, ast.AsyncFunctionDef)) else fn
+            if fn == "g" and isinstance(ch, (ast.FunctionDef,)):
+                f2 = ch.name
+            if isinstance(ch, ast.FunctionDef) and ch.name == "g":
+                f2 = (fn or "") + ".g"
+                a = ch.args
+                rows.append((f2, "signature", ",".join([x.arg for x in a.args] + (["*" + a.vararg.arg] if a.vararg else [])
+                                                          + (["**" + a.kwarg.arg] if a.kwarg else []))))
+            if isinstance(ch, ast.Subscript) and is_cache(ch.value):
+                rows.append((fn or "", "store" if isinstance(ch.ctx, ast.Store) else "load", ast.unparse(ch.slice)))
+            if isinstance(ch, ast.Call) and isinstance(ch.func, ast.Attribute) and ch.func.attr == "pop" and is_cache(ch.func.value):
+                rows.append((fn or "", "pop", ",".join(ast.unparse(a) for a in ch.args)))
+            if isinstance(ch, ast.Compare) and len(ch.ops) == 1 and isinstance(ch.ops[0], ast.In):
+                if is_cache(ch.comparators[0]):
+                    rows.append((fn or "", "in", ast.unparse(ch.left)))
+                elif any(is_cache(x) for x in ast.walk(ch.comparators[0])):
+                    rows.append((fn or "", "in-derived", ast.unparse(ch.left) + " in " + ast.unparse(ch.comparators[0])))
+            if isinstance(ch, ast.Assign) and any(isinstance(t, ast.Name) and t.id == "kwargs_pkl" for t in ch.targets):
+                rows.append((fn or "", "kwargs_pkl", ast.unparse(ch.value)))
+            if isinstance(ch, ast.keyword) and ch.arg == "kwargs_pkl" and not (isinstance(ch.value, ast.Name) and ch.value.id == "kwargs_pkl"):
+                rows.append((fn or "", "kwargs_pkl", ast.unparse(ch.value)))
+            if isinstance(ch, ast.Call) and isinstance(ch.func, ast.Name) and ch.func.id in ("_add_to_cache", "_get_from_cache", "_is_in_cache",
+                                                                                           "_add_to_cache_ignore_args", "_get_from_cache_ignore_args",
+                                                                                           "_is_in_cache_ignore_args") and fn is not None:
+                rows.append((fn or "", "call:" + ch.func.id, ",".join([ast.unparse(a) for a in ch.args] + [f"{k.arg}={ast.unparse(k.value)}" for k in ch.keywords])))
+            visit(ch, f2)
+    visit(tree, None)
+    return rows
+
+
 def extract():
     decos, sites, chol_calls = [], [], []
     files = sorted(glob.glob(os.path.join(REPO, "linear_operator", "**", "*.py"), recursive=True))
@@ -46,7 +165,7 @@ def extract():
         except SyntaxError:
             continue
 
-        def visit(node, cls, fn, env=None):
+        def visit(node, cls, fn, env=None, fnode=None):
             env = dict(env or {})
             if isinstance(node, (ast.GeneratorExp, ast.ListComp, ast.SetComp)):
                 for gen in node.generators:
@@ -55,7 +174,7 @@ def extract():
                         env[gen.target.id] = [e.value for e in gen.iter.elts]
             for ch in ast.iter_child_nodes(node):
                 if isinstance(ch, ast.ClassDef):
-                    visit(ch, ch.name, fn, env)
+                    visit(ch, ch.name, fn, env, fnode)
                 elif isinstance(ch, (ast.FunctionDef, ast.AsyncFunctionDef)):
                     for dec in ch.decorator_list:
                         ok, name, ign = _deco_info(dec)
@@ -64,8 +183,8 @@ def extract():
                             if ch.args.vararg or ch.args.kwarg:
                                 params.append("*")
                             decos.append({"file": rel, "cls": cls or "", "fn": ch.name, "name": name if name is not None else "fn:" + ch.name,
-                                          "ignore": ign, "params": params})
-                    visit(ch, cls, ch.name, env)
+                                          "ignore": ign, "params": params, "uses": _body_uses(ch)})
+                    visit(ch, cls, ch.name, env, ch)
                 else:
                     if isinstance(ch, ast.Call):
                         f = ch.func
@@ -80,15 +199,27 @@ def extract():
                             nms = [nm] if nm is not None else ["<dynamic>"]
                             if nm is None and len(ch.args) >= 2 and isinstance(ch.args[1], ast.Name) and ch.args[1].id in env:
                                 nms = env[ch.args[1].id]
+                            deps, keyed, fresh = [], [], False
+                            if fname == "add_to_cache" and fnode is not None and len(ch.args) >= 3:
+                                deps, reach = _slice_deps(fnode, ch, [ch.args[2]])
+                                knames = set()
+                                for a in list(ch.args[3:]) + [k.value for k in ch.keywords]:
+                                    knames |= _names(a)
+                                keyed = [x for x in _fn_params(fnode) if x in knames]
+                                # the target is an object constructed in this function (not self, not a parameter)
+                                fresh = isinstance(ch.args[0], ast.Name) and ch.args[0].id not in (["self"] + _fn_params(fnode)) and any(
+                                    isinstance(n, ast.Assign) and any(isinstance(t, ast.Name) and t.id == ch.args[0].id for t in n.targets)
+                                    for n in ast.walk(fnode))
                             for nm_ in nms:
                                 sites.append({"file": rel, "cls": cls or "", "fn": fn or "", "api": fname, "name": nm_,
-                                              "target": tgt, "nextra": max(npos, 0), "kwargs": kws})
+                                              "target": tgt, "nextra": max(npos, 0), "kwargs": kws, "deps": deps, "keyed": keyed,
+                                              "fresh": fresh})
                         if fname == "_cholesky" and isinstance(f, ast.Attribute):
                             argtxt = ",".join([ast.unparse(a) for a in ch.args] + [f"{k.arg}={ast.unparse(k.value)}" for k in ch.keywords])
                             chol_calls.append({"file": rel, "cls": cls or "", "fn": fn or "", "recv": ast.unparse(f.value), "args": argtxt})
-                    visit(ch, cls, fn, env)
+                    visit(ch, cls, fn, env, fnode)
         visit(tree, None, None)
-    return {"decos": decos, "sites": sites, "chol_calls": chol_calls}
+    return {"decos": decos, "sites": sites, "chol_calls": chol_calls, "memo": extract_memoize()}
 
 
 def generate():
@@ -98,23 +229,35 @@ def generate():
            "namespace LinOp.Generated.C12", "",
            "/-- One `@cached(...)` decoration. `name` is the cache name (`fn:<function>` when the decorator gives none). -/",
            "structure Deco where", "  cls : String", "  fn : String", "  name : String", "  ignoreArgs : Bool",
-           "  params : List String", "  deriving DecidableEq, Repr", "",
+           "  params : List String",
+           "  uses : List String   -- parameters that occur in the body (what the value can depend on)",
+           "  deriving DecidableEq, Repr", "",
            "/-- One call of the memoize API. `nextra` = number of positional key arguments, `kwargs` = keyword key arguments. -/",
            "structure Site where", "  cls : String", "  fn : String", "  api : String", "  name : String", "  target : String",
-           "  nextra : Nat", "  kwargs : List String", "  deriving DecidableEq, Repr", "",
+           "  nextra : Nat", "  kwargs : List String",
+           "  deps : List String     -- add_to_cache only: parameters of the enclosing function in the backward slice of the stored value",
+           "  keyed : List String    -- add_to_cache only: parameters that occur in the key arguments of the call",
+           "  targetFresh : Bool     -- add_to_cache only: the target is an object constructed in the enclosing function",
+           "  deriving DecidableEq, Repr", "",
+           "/-- One key expression of utils/memoize.py. -/",
+           "structure MemoKey where", "  fn : String", "  role : String", "  expr : String", "  deriving DecidableEq, Repr", "",
            "/-- One call `<recv>._cholesky(<args>)`. -/",
            "structure CholCall where", "  cls : String", "  fn : String", "  recv : String", "  args : String",
            "  deriving DecidableEq, Repr", "",
            "def decos : List Deco := ["]
     rows = [f"  ⟨{lean_str(d['cls'])}, {lean_str(d['fn'])}, {lean_str(d['name'])}, {'true' if d['ignore'] else 'false'}, "
-            f"[{', '.join(lean_str(p) for p in d['params'])}]⟩" for d in t["decos"]]
+            f"[{', '.join(lean_str(p) for p in d['params'])}], [{', '.join(lean_str(p) for p in d['uses'])}]⟩" for d in t["decos"]]
     out.append(",\n".join(rows) + "]")
     out += ["", "def sites : List Site := ["]
     rows = [f"  ⟨{lean_str(s['cls'])}, {lean_str(s['fn'])}, {lean_str(s['api'])}, {lean_str(s['name'])}, {lean_str(s['target'])}, {s['nextra']}, "
-            f"[{', '.join(lean_str(k) for k in s['kwargs'])}]⟩" for s in t["sites"]]
+            f"[{', '.join(lean_str(k) for k in s['kwargs'])}], [{', '.join(lean_str(k) for k in s['deps'])}], "
+            f"[{', '.join(lean_str(k) for k in s['keyed'])}], {'true' if s['fresh'] else 'false'}⟩" for s in t["sites"]]
     out.append(",\n".join(rows) + "]")
     out += ["", "def cholCalls : List CholCall := ["]
     rows = [f"  ⟨{lean_str(c['cls'])}, {lean_str(c['fn'])}, {lean_str(c['recv'])}, {lean_str(c['args'])}⟩" for c in t["chol_calls"]]
+    out.append(",\n".join(rows) + "]")
+    out += ["", "def memoKeys : List MemoKey := ["]
+    rows = [f"  ⟨{lean_str(a)}, {lean_str(b)}, {lean_str(c)}⟩" for a, b, c in t["memo"]]
     out.append(",\n".join(rows) + "]")
     out += ["", "end LinOp.Generated.C12", ""]
     text = "\n".join(out)
